@@ -188,6 +188,10 @@ class Lib:
         if isinstance(a, V.Opaque) or isinstance(b, V.Opaque):
             if ctx.opaque_ok:
                 return V.Opaque("binop")
+            if isinstance(op, ast.Add) and all(
+                    (isinstance(x, V.Opaque) and x.what.startswith("formatted")) or isinstance(x, str)
+                    or (isinstance(x, z3.ExprRef) and z3.is_string(x)) for x in (a, b)):
+                return V.Opaque("formatted string")  # concatenation of message texts: a string nobody inspects
             raise EngineLimit("arithmetic on opaque value")
         if isinstance(a, str) and isinstance(op, ast.Mod):
             return V.Opaque("formatted string")
@@ -225,6 +229,10 @@ class Lib:
         if z3.is_string(ta):
             if isinstance(op, ast.Add):
                 return z3.Concat(ta, tb)
+            if isinstance(op, ast.Div):
+                # pathlib.Path values are represented by strings that are only passed around and compared
+                ASSUMED.setdefault("pathlib./", "Path / x is some path, a function of both operands (never raises)")
+                return self.e.uf("path!join", z3.StringSort(), z3.StringSort(), z3.StringSort())(ta, tb)
             raise EngineLimit("string operator")
         ta, tb = e.to_num(ta), e.to_num(tb)
         if isinstance(op, ast.Add):
@@ -565,6 +573,10 @@ class Lib:
         return fn(ctx, *args, **kwargs)
 
     def call_exc_method(self, ctx, exc, name, args, kwargs):
+        if name == "set_error_location_if_unknown":
+            # pydsdl.Error.set_error_location_if_unknown only fills the exception's own path / line attributes
+            # (location bookkeeping of error objects is not modelled: no contract here mentions it)
+            return None
         raise EngineLimit("exception method %s" % name)
 
     # -- simple ones
@@ -808,7 +820,53 @@ class Lib:
         return V.RangeV(a, b, step)
 
     def bi_sorted(self, ctx, it, key=None, reverse=False):
-        raise EngineLimit("sorted()")
+        """ASSUMED (CPython list.sort / sorted): the result is a permutation of the input, ordered by the key
+           (non-decreasing, lexicographic on tuples) and stable (elements with equal keys keep their input order)."""
+        from .loops import symbolic_template, mk_forall
+
+        if isinstance(it, V.MappedIter):
+            from .loops import list_of_mapped
+
+            it = list_of_mapped(self.e, ctx, it)
+        if not isinstance(it, SymSeq) or key is None or reverse is not False:
+            raise EngineLimit("sorted() of %r (only sorted(<symbolic sequence>, key=f) is modelled)" % (it,))
+        ASSUMED.setdefault("sorted", "sorted(seq, key=f) returns a permutation of seq that is non-decreasing in f "
+                           "(tuples compare lexicographically, str by code points) and stable")
+        n = it.length
+        out = SymSeq(ctx.fresh("sorted!arr", it.arr.sort()), n, it.kind, fresh=True)
+        ctx.counter += 1
+        perm = z3.Function("sorted!perm!%d" % ctx.counter, z3.IntSort(), z3.IntSort())
+        inv = z3.Function("sorted!inv!%d" % ctx.counter, z3.IntSort(), z3.IntSort())
+        j, k, i = z3.Ints("sj sk si")
+        sel = z3.Select
+        ctx.assume(mk_forall([j], z3.Implies(z3.And(0 <= j, j < n),
+                                             z3.And(0 <= perm(j), perm(j) < n, sel(out.arr, j) == sel(it.arr, perm(j)),
+                                                    inv(perm(j)) == j)), patterns=[sel(out.arr, j)]))
+        ctx.assume(mk_forall([i], z3.Implies(z3.And(0 <= i, i < n),
+                                             z3.And(0 <= inv(i), inv(i) < n, perm(inv(i)) == i,
+                                                    sel(out.arr, inv(i)) == sel(it.arr, i))), patterns=[sel(it.arr, i)]))
+        b, v, gs, src = symbolic_template(self.e, ctx, V.MappedIter(key, out))
+        comps = list(v) if isinstance(v, tuple) else [v]
+        terms = []
+        for c in comps:
+            if isinstance(c, str):
+                c = z3.StringVal(c)
+            elif isinstance(c, (int, bool)):
+                c = z3.IntVal(int(c))
+            terms.append(c)
+        at = lambda t, idx: z3.substitute(t, (b.consts[0], idx))
+
+        def lex_le(a, c):
+            if not a:
+                return z3.BoolVal(True)
+            return z3.Or(a[0] < c[0], z3.And(a[0] == c[0], lex_le(a[1:], c[1:])))
+
+        kj, kk = [at(t, j) for t in terms], [at(t, k) for t in terms]
+        same = z3.And(*[x == y for x, y in zip(kj, kk)])
+        ctx.assume(mk_forall([j, k], z3.Implies(z3.And(0 <= j, j < k, k < n),
+                                                z3.And(lex_le(kj, kk), z3.Implies(same, perm(j) < perm(k)))),
+                             patterns=[z3.MultiPattern(sel(out.arr, j), sel(out.arr, k))]))
+        return out
 
     def bi_enumerate(self, ctx, it, start=0):
         items = self.e.iter_concrete(ctx, it)
@@ -1254,7 +1312,25 @@ class Lib:
     def m_str_split(self, ctx, o, sep=None):
         if isinstance(o, str) and isinstance(sep, str):
             return PyList(o.split(sep))
+        if isinstance(o, z3.ExprRef) and z3.is_string(o) and isinstance(sep, str) and sep:
+            return self.split_symbolic(ctx, o, sep)
         raise EngineLimit("split of a symbolic string")
+
+    def split_symbolic(self, ctx, s, sep: str):
+        """ASSUMED (CPython str.split with a non-empty separator): the result is a non-empty list of strings that
+           contain no separator; it is a function of (s, sep); it has one element, s itself, iff s does not contain sep;
+           the first component is a prefix of s."""
+        ASSUMED.setdefault("str.split", "s.split(sep), sep non-empty: a non-empty list, a function of (s, sep), of strings "
+                           "not containing sep; [s] iff sep does not occur in s; the first component is a prefix of s")
+        sv = z3.StringVal(sep)
+        arr = self.e.uf("str.split!arr", z3.StringSort(), z3.StringSort(), z3.ArraySort(z3.IntSort(), z3.StringSort()))(s, sv)
+        n = self.e.uf("str.split!len", z3.StringSort(), z3.StringSort(), z3.IntSort())(s, sv)
+        ctx.assume(n >= 1)
+        ctx.assume((n == 1) == z3.Not(z3.Contains(s, sv)))
+        ctx.assume(z3.Implies(n == 1, z3.Select(arr, 0) == s))
+        ctx.assume(z3.PrefixOf(z3.Select(arr, 0), s))
+        ctx.assume(z3.Not(z3.Contains(z3.Select(arr, 0), sv)))
+        return SymSeq(arr, n, V.Str, fresh=True)
 
     def m_str_encode(self, ctx, o, enc="utf8"):
         # ASSUMED (CPython): str.encode('utf8') raises UnicodeEncodeError iff the string contains a surrogate
